@@ -187,16 +187,24 @@ func (store *Store) Restore() error {
 
 	r := resp.NewReader(store.rw)
 	database := 0
+	// Number of bytes of the file that hold complete, well-formed records.
+	var offset int64
 
 	for {
 		value, n, err := r.ReadValue()
 		if err != nil && err != io.EOF {
+			// The tail of the file is not a complete record (e.g. the process died in the middle
+			// of a write). Drop it, so that records appended from now on stay readable.
+			if truncErr := store.rw.Truncate(offset); truncErr != nil {
+				return fmt.Errorf("restore aof: %v; truncate torn tail: %v", err, truncErr)
+			}
 			return err
 		}
 		if n == 0 {
 			// Break out when there are no more bytes to read.
 			break
 		}
+		offset += int64(n)
 
 		command, err := value.MarshalRESP()
 		if err != nil {
